@@ -630,6 +630,22 @@ class Gen:
         return ('obj', t), f'({self.objset(t, env, prefix, depth)})'
 
     def anyset(self, env, prefix, depth, paren=False):
+        if self.o.params and self.o.collections and self.i(0, 11) == 0:
+            # tuple-typed parameters (decoded into several SQL parameters), used or only bound
+            name = self.pick(['t0', 't1'])
+            text = self.pick(['<tuple<int64, str>>', '<array<tuple<int64, str>>>', '<tuple<a: int64, b: bool>>'])
+            if name in self.params and self.params[name] != text:
+                name = self.fresh('t')
+            self.params[name] = text
+            self.f('tuple-param')
+            c2 = self.i(0, 2)
+            if c2 == 0:
+                return f'({text}${name})'
+            if c2 == 1:
+                return f'(with tp := {text}${name} select {self.scalar("int", env, prefix, max(depth - 1, 0))})'
+            if text.startswith('<array'):
+                return f'(len({text}${name}))'
+            return f'(({text}${name}).0)'
         c = self.i(0, 3)
         if c == 3:
             # a union of two object sets of arbitrary (possibly overlapping) types
